@@ -98,10 +98,13 @@ try:
         rc1, out1 = run(cmd, cwd=wt, timeout=1800)
         result["demo_fails_with_change"] = rc1 != 0
         # without the change
-        run(["git", "stash", "push", "--"] + changed, cwd=wt)
+        run(["git", "checkout", "--"] + changed, cwd=wt)
         rc2, out2 = run(cmd, cwd=wt, timeout=1800)
         result["demo_passes_without"] = rc2 == 0
-        run(["git", "stash", "pop"], cwd=wt)
+        rc3, out3 = run(["git", "apply", patch], cwd=wt)
+        if rc3 != 0:
+            print("SEED %s%s: could not re-apply the patch: %s" % (pid, which, out3))
+            sys.exit(3)
         result["demo_cmd_used"] = cmd
         if rc1 == 0:
             print("SEED %s%s: demo does not fail with the change:\n%s" % (pid, which, out1[-1500:]))
@@ -114,6 +117,8 @@ try:
         except OSError:
             pass
 
+    rcd, outd = run("git diff --stat", cwd=wt)
+    result["diff_stat_at_check"] = outd.strip().splitlines()[-1] if outd.strip() else "EMPTY"
     if result["build_ok"]:
         rc, out = run(["/verif/check", pid, "--tier", tier], cwd="/verif", timeout=4 * 3600, extra_env={"VERIF_REPO": wt})
         result["check_exit"] = rc
@@ -128,7 +133,7 @@ finally:
 
 confirmed = all(result[k] for k in ("build_ok", "existing_tests_pass", "demo_fails_with_change", "demo_passes_without"))
 result["confirmed"] = confirmed
-print("SEED %s%s confirmed=%s detected=%s (check exit %s, tier %s)" % (pid, which, confirmed, result["detected"], result["check_exit"], tier))
+print("SEED %s%s confirmed=%s detected=%s (check exit %s, tier %s, diff at check: %s)" % (pid, which, confirmed, result["detected"], result["check_exit"], tier, result.get("diff_stat_at_check")))
 for l in result.get("check_output_excerpt", [])[:4]:
     print("   ", l[:300])
 
